@@ -6,6 +6,9 @@ from typing import TYPE_CHECKING
 
 from bqskit.compiler.gateset import GateSet
 from bqskit.compiler.gateset import GateSetLike
+from bqskit.ir.gates.barrier import BarrierPlaceholder
+from bqskit.ir.gates.measure import MeasurementPlaceholder
+from bqskit.ir.gates.reset import Reset
 from bqskit.ir.location import CircuitLocation
 from bqskit.qis.graph import CouplingGraph
 from bqskit.qis.graph import CouplingGraphLike
@@ -101,21 +104,48 @@ class MachineModel:
         circuit: Circuit,
         placement: list[int] | None = None,
     ) -> bool:
-        """Check if a circuit is compatible with this model."""
+        """
+        Check if a circuit is compatible with this model.
+
+        Measurement, barrier, and reset placeholders are not operations of
+        the machine: they are not looked up in the gate set and the qudits
+        they span do not need to be coupled.
+        """
         if circuit.num_qudits > self.num_qudits:
             return False
 
-        if any(g not in self.gate_set for g in circuit.gate_set):
+        placeholders = (MeasurementPlaceholder, BarrierPlaceholder, Reset)
+
+        if any(
+            g not in self.gate_set
+            for g in circuit.gate_set
+            if not isinstance(g, placeholders)
+        ):
             return False
 
         if placement is None:
             placement = list(range(circuit.num_qudits))
 
         if any(
-            (placement[e[0]], placement[e[1]]) not in self.coupling_graph
-            for e in circuit.coupling_graph
+            isinstance(g, placeholders) and g.num_qudits > 1
+            for g in circuit.gate_set
         ):
-            return False
+            # The circuit's coupling graph counts the placeholders too
+            edges = {
+                (a, b)
+                for op in circuit
+                if op.num_qudits > 1 and not isinstance(op.gate, placeholders)
+                for a in op.location
+                for b in op.location
+                if a < b
+            }
+        else:
+            edges = set(circuit.coupling_graph)
+
+        for a, b in edges:
+            pa, pb = placement[a], placement[b]
+            if (min(pa, pb), max(pa, pb)) not in self.coupling_graph:
+                return False
 
         if any(
             r != self.radixes[placement[i]]
